@@ -26,11 +26,18 @@ def main():
         r = sh('cmake -G Ninja -S %s -B %s > /dev/null && cmake --build %s -j8' % (REPO, SB, SB))
         res['compiles'] = r.returncode == 0
         if not res['compiles']: print(r.stdout[-2000:]); return 2
-        t0 = time.time(); r = sh('ctest --test-dir %s -j6 --timeout 900' % SB)
-        res['ctest'] = [l for l in r.stdout.split('\n') if 'tests passed' in l or 'tests failed' in l][-1:] ; res['ctest_ok'] = '100% tests passed' in r.stdout
-        r1 = sh('bash %s/demo/run.sh %s' % (out, SB), cwd=os.path.join(out, 'demo')); res['demo_with_change'] = r1.returncode
-        r0 = sh('bash %s/demo/run.sh %s' % (out, SB0), cwd=os.path.join(out, 'demo')); res['demo_without_change'] = r0.returncode
-        res['demo_tail_with'] = r1.stdout[-400:]
+        prev = {}
+        try: prev = json.load(open(os.path.join(V, 'seeded', name, 'meta.json'))).get('confirmed_by_integrator', {})
+        except Exception: pass
+        if os.environ.get('SEED_RECHECK') and prev.get('ctest_ok') is not None:
+            for k2 in ('ctest', 'ctest_ok', 'demo_with_change', 'demo_without_change', 'demo_tail_with'): res[k2] = prev.get(k2)
+            res['checks_before_strengthening'] = prev.get('checks')
+        else:
+            t0 = time.time(); r = sh('ctest --test-dir %s -j6 --timeout 900' % SB)
+            res['ctest'] = [l for l in r.stdout.split('\n') if 'tests passed' in l or 'tests failed' in l][-1:] ; res['ctest_ok'] = '100% tests passed' in r.stdout
+            r1 = sh('bash %s/demo/run.sh %s' % (out, SB), cwd=os.path.join(out, 'demo')); res['demo_with_change'] = r1.returncode
+            r0 = sh('bash %s/demo/run.sh %s' % (out, SB0), cwd=os.path.join(out, 'demo')); res['demo_without_change'] = r0.returncode
+            res['demo_tail_with'] = r1.stdout[-400:]
         env = dict(os.environ, VERIF_REPO=REPO, VERIF_BUILD=BASE + '/build', VERIF_EVIDENCE_DIR=BASE + '/out/evidence', VERIF_FINDINGS_DIR=BASE + '/out/findings/' + name,
                    VERIF_WORKERS=os.environ.get('VERIF_WORKERS', '8'))
         res['checks'] = {}
